@@ -1,7 +1,7 @@
 """C29 — Gzip output encoding is transparent to the client.
 
 Domain: Application(compress_response=True); handler program of <=8 ops restricted to write / flush
-(awaited or not) / finish([chunk]) / set_status(200|206|204|304) / set_header|add_header|clear_header of
+(awaited or not) / finish([chunk]) or a fault ending (raise ValueError / HTTPError / Finish after N flushes) / set_status(200|206|204|304) / set_header|add_header|clear_header of
 Content-Type (whitelisted types, text/*, with parameters, upper-case, non-compressible, absent),
 Content-Encoding preset, Vary preset (single / multi-member / several lines / `*` / already listing
 Accept-Encoding in either case / members that merely contain the words, e.g. X-Accept-Encoding-Profile),
@@ -39,7 +39,7 @@ Finding on the current tree (open, known_findings.d/C29.json + findings_inbox/C2
   bodyless response (304: connection dropped without response; 204: bytes behind the header block).
 With the proposed patch applied to a scratch copy the check is quiet with zero excluded cases.
 
-Sensitivity (quick tier, seed 1, each mutant applied alone to a scratch copy of tornado/web.py; 11 of 12 caught):
+Sensitivity (quick tier, seed 1, each mutant applied alone to a scratch copy of tornado/web.py; 12 of 13 caught):
   transform_first_chunk: Content-Length kept on a non-final first chunk   -> C29.not_well_framed
   transform_chunk: GzipFile.flush() omitted on non-final chunks           -> C29.flush_not_a_sync_point
   transform_first_chunk: Vary overwritten instead of extended             -> C29.vary_lost_program_token
@@ -49,6 +49,12 @@ Sensitivity (quick tier, seed 1, each mutant applied alone to a scratch copy of 
   _compressible_type: always True                                         -> C29.gzip_for_non_compressible_type
   transform_chunk: close() replaced by flush() (no gzip trailer)          -> C29.gzip_body_undecodable
   transform_first_chunk: Vary not set when absent                         -> C29.vary_without_accept_encoding
+  send_error (headers already written): buffered output dropped and connection.finish() called directly, so
+      the transforms never see the final chunk: chunked body ends cleanly but the gzip member has no
+      end-of-stream marker / trailer                                        -> C29.gzip_body_undecodable
+      (found by independent mutation testing and MISSED while every program ended with finish; programs may
+      now end by raising after N flushes; after such an error the decoded body must be a complete coding and
+      a prefix of what was written that covers everything flushed)
   transform_first_chunk: `, Accept-Encoding` appended to an existing Vary only when the words do not OCCUR
       in it (case-insensitive substring test): `Vary: X-Accept-Encoding-Profile` or `Cookie, X-No-Accept-
       Encoding` goes out without the member Accept-Encoding                  -> C29.vary_without_accept_encoding
@@ -159,10 +165,17 @@ header_op = weighted(
                   st.sampled_from(VARY_VALUES))),
     (3, st.tuples(st.just("set_cl"), st.sampled_from([0, 0, 0, 0, 0, 0, 1, -1]))),
 )
+# fault endings: the handler raises (generic exception, HTTPError -> send_error, Finish) instead of finishing;
+# after a flush Tornado can only terminate the response, before it the error page replaces the output
+raise_op = st.one_of(
+    st.tuples(st.just("raise_value")),
+    st.tuples(st.just("raise_http"), st.sampled_from([404, 500, 503])),
+    st.tuples(st.just("raise_finish"), weighted((2, st.none()), (1, chunk_s))),
+)
 prog_s = st.tuples(
     st.lists(weighted((1, status_op), (4, header_op)), max_size=3),
     st.lists(weighted((5, write_op), (4, flush_op), (1, header_op)), max_size=5),
-    st.lists(finish_op, max_size=1),
+    st.lists(weighted((3, finish_op), (2, raise_op)), max_size=1),
     st.lists(st.one_of(flush_op, write_op), max_size=1),
 ).map(lambda t: (t[0] + t[1] + t[2] + t[3])[:8])
 
@@ -210,7 +223,7 @@ def flush_points(prog, method):
             total += len(rm.chunk_bytes(op[1]))
         elif op[0] == "flush":
             pts.append(total)
-        elif op[0] == "finish":
+        elif op[0] in rm.TERMINAL_OPS:
             finished = True
     return pts
 
@@ -247,6 +260,8 @@ def run_case(ctx, case):
     ctype = hdrs.get("content-type")
     may_gzip = ae_gzip and compressible(ctype) and not preset_ce
     bodyless_flush = exp.bodyless_status and exp.flushed_early and method != "HEAD"
+    # an exception (not Finish) left the handler after the header block had been flushed
+    raised_after_flush = bool(exp.flushed_early and exp.rejected and not exp.error_page)
 
     if exp.outcome != "normal":
         # EITHER: Content-Length guard tripped in the model (gzip rewrites the length, identity does not)
@@ -296,7 +311,10 @@ def run_case(ctx, case):
     if preset_ce is not None:
         labels.add("preset_content_encoding")
         ctx.check(ce == preset_ce, "C29.preset_content_encoding_changed", dict(info, got=ce, want=preset_ce))
-        if has_body and not exp.error_page:
+        if has_body and raised_after_flush:
+            ctx.check(exp.body.startswith(r1.body), "C29.body_reencoded_despite_preset_encoding",
+                      dict(info, got_len=len(r1.body), want_len=len(exp.body)))
+        elif has_body and not exp.error_page:
             ctx.check(r1.body == exp.body, "C29.body_reencoded_despite_preset_encoding",
                       dict(info, got_len=len(r1.body), want_len=len(exp.body)))
         gz = False
@@ -327,7 +345,15 @@ def run_case(ctx, case):
                 return done()
         else:
             decoded = r1.body
-        if not exp.error_page:
+        if raised_after_flush:
+            # The response could only be terminated; whether output still buffered at the time of the error
+            # is sent is not specified.  What was sent must be a complete content coding (gunzip_strict above)
+            # and decode to a prefix of what the handler wrote that covers everything it had flushed.
+            labels.add("raised_after_flush")
+            flushed = max(flush_points(prog, method) or [0])
+            ctx.check(exp.body.startswith(decoded) and len(decoded) >= flushed, "C29.decoded_body_after_error",
+                      dict(info, got_len=len(decoded), want_len=len(exp.body), flushed=flushed))
+        elif not exp.error_page:
             ctx.check(decoded == exp.body, "C29.decoded_body", dict(info, got_len=len(decoded), want_len=len(exp.body),
                                                                   got=decoded[:80], want=exp.body[:80]))
 
